@@ -60,12 +60,18 @@ def leaf(kind, i):
     if kind == "stub-cond":
         return {"type": "verif-stub", "text": f'resource["{f}"] == 1 ? resource["{g}"] == 1 : resource["{g}"] == 2'}, \
             (lambda V: z3.If(V[f] == 1, V[g] == 1, V[g] == 2)), [f, g]
+    if kind == "stub-paren-and":  # starts with "(" and ends with ")" although the top-level operator is &&
+        return {"type": "verif-stub", "text": f'(resource["{f}"] == 1) && (resource["{g}"] == 1)'}, (lambda V: z3.And(V[f] == 1, V[g] == 1)), [f, g]
+    if kind == "stub-paren-or":
+        return {"type": "verif-stub", "text": f'(resource["{f}"] == 1) || (resource["{g}"] == 1)'}, (lambda V: z3.Or(V[f] == 1, V[g] == 1)), [f, g]
+    if kind == "stub-bslash-or":  # a string literal ending in an escaped backslash, an empty literal, then a top-level ||
+        return {"type": "verif-stub", "text": f'resource["{f}"] == 1 && "\\\\" != "" || resource["{g}"] == 1'}, (lambda V: z3.Or(V[f] == 1, V[g] == 1)), [f, g]
     if kind == "stub-not":
         return {"type": "verif-stub", "text": f'! [1].contains(resource["{f}"])'}, (lambda V: z3.Not(V[f] == 1)), [f]
     raise ValueError(kind)
 
 
-KINDS = ["eq", "ni", "gt", "stub-or", "stub-and", "stub-cond", "stub-not"]
+KINDS = ["eq", "ni", "gt", "stub-or", "stub-and", "stub-cond", "stub-not", "stub-paren-and", "stub-paren-or", "stub-bslash-or"]
 
 
 def trees(nleaves, depth):
@@ -127,16 +133,24 @@ def cases(tier):
     out = []
     maxl, depth = (3, 2) if tier == "quick" else (4, 2)
     rot = [["eq", "eq", "eq", "eq"], ["eq", "stub-or", "ni", "stub-cond"], ["stub-and", "eq", "stub-not", "gt"], ["stub-cond", "stub-or", "eq", "eq"],
-           ["ni", "stub-not", "stub-or", "stub-and"]]
+           ["ni", "stub-not", "stub-or", "stub-and"], ["stub-paren-and", "stub-bslash-or", "eq", "stub-paren-or"], ["stub-bslash-or", "stub-paren-or", "gt", "stub-paren-and"]]
     for n in range(1, maxl + 1):
         for ti, t in enumerate(trees(n, depth)):
             top = t if t[0] == "list" else ("list", [t])  # `filters:` is always a list
-            if tier == "thorough" or n <= 2:
+            if tier == "thorough":
                 ks = rot
+            elif n == 1:
+                ks = rot
+            elif n == 2:
+                ks = [rot[(ti + j) % len(rot)] for j in (0, 2, 5)]  # three of the seven clause-kind rows, rotating with the tree
             else:
                 ks = [rot[ti % len(rot)]]  # quick, 3 leaves: one (rotating) clause-kind assignment per tree
             for kinds in ks:
                 out.append((top, kinds))
+            if t[0] == "not" and (tier == "thorough" or n <= 2):
+                # a policy fragment whose root is a bare `not` (logical_connector called on the connective itself)
+                out.append((t, rot[(ti + 1) % len(rot)]))
+                out.append((t, rot[5 + ti % 2]))
     seen, res = set(), []
     for c in out:
         k = repr(c)
@@ -146,7 +160,7 @@ def cases(tier):
     return res
 
 
-NT = 48
+NT = 64
 
 
 def tasks(tier):
